@@ -896,7 +896,11 @@ func c03Compare(c *core.Ctx, k c03Case, reply string, violated bool, tr string) 
 	modelPartial := f[1] == "1"
 	if tr == "udp" && len(f) >= 4 {
 		// udp_close_partial: inside both assumptions the model cannot show a partial EOF
-		if violated && f[2] == "1" && f[3] == "1" {
+		// reply fields: partial ordered patient navail total rClosed kept — the third assumption (kept: the reader's
+		// endpoint did not close the session locally, e.g. by its idle timeout) is the LAST field; a history with
+		// kept = 0 is outside udp_close_partial (that is the recorded finding reader-idle-timeout-clean-eof)
+		kept := len(f) < 8 || f[7] == "1"
+		if violated && f[2] == "1" && f[3] == "1" && kept {
 			c.Disagree("C03/corr/udp-partial-eof-inside-assumptions", "the implementation showed a strict prefix followed by EOF although the replayed history stayed inside the three assumptions of udp_close_partial (ordered, patient, kept) — contradicts Props/C03.accepted_history_sound: "+reply, k)
 		}
 		if f[2] == "0" {
